@@ -230,6 +230,12 @@ ROUND11 = {
 }
 
 
+ROUND12 = {
+    'C02': 'Kill and pause requests without a text (the KilledError text is the empty kill text).',
+    'C20': 'create_task from a thread without an event loop must not raise, and its future lives on the named loop.',
+}
+
+
 def main():
     checks = []
     for pid, (level, technique, text, note, ref) in sorted(CHECKS.items()):
@@ -243,6 +249,8 @@ def main():
             text = text.rstrip() + ' Added after round 10: ' + ROUND10[pid]
         if pid in ROUND11:
             text = text.rstrip() + ' Added after round 11: ' + ROUND11[pid]
+        if pid in ROUND12:
+            text = text.rstrip() + ' Added after round 12: ' + ROUND12[pid]
         checks.append(
             {
                 'property_id': pid,
